@@ -17,6 +17,9 @@ ASSUMPTIONS = ["np.prod / np.sum are not exactly permutation-invariant in double
                "Fisher's -2 log(prod p) and Liptak's normal quantiles are compared with their formulas numerically (1e-9)"]
 
 
+LADDER = [Fr(1) - Fr(1, 10**9), Fr(float(1 - 2.0 ** -52)), Fr(float(np.nextafter(1.0, 0.0))), Fr(1)]
+
+
 def run(ctx):
     from permute import npc
     from scipy.stats import norm
@@ -37,6 +40,22 @@ def run(ctx):
         pv = [Fr(ctx.rng.randint(1, B + c - (1 if comb == "liptak" else 0)), B + c) for _ in range(n)]
         if comb == "liptak" and ctx.rng.random() < 0.5:      # all observed p-values very large: rows clipped at 1 - eps matter
             pv = [Fr(ctx.rng.choice([990, 995, 999]), 1000) for _ in range(n)]
+        boundary = False
+        if comb == "liptak" and ctx.rng.random() < 0.3:     # the doubles next to 1 and 1 itself: legal observed p-values
+            boundary = True
+            if ctx.rng.random() < 0.7:      # long tables with few ties: finely spaced row statistics around the observed one
+                B = ctx.rng.choice([30, 60, 100, 150]); hi = ctx.rng.choice([9, 2000])
+                D = [[ctx.rng.randint(0, hi) for _ in range(n)] for _ in range(B)]
+            pv = [ctx.rng.choice(LADDER[:-1] + [Fr(ctx.rng.randint(1, B + c - 1), B + c)]) for _ in range(n)]
+            if ctx.rng.random() < 0.7:
+                # one coordinate at the boundary, the others equal or adjacent to the p-values of the row that is lowest in that
+                # column: that row's statistic and the observed one then differ by about the boundary coordinate only
+                i0 = ctx.rng.randrange(n); P0 = row_pvals_exact(D, plus1)
+                r0_ = min(range(B), key=lambda r: D[r][i0])
+                pv = [min(Fr(B + c - 1, B + c), max(Fr(1, B + c), P0[r0_][j] + Fr(ctx.rng.choice([-1, -1, 0, 1]), B + c))) for j in range(n)]
+                pv[i0] = ctx.rng.choice(LADDER[:-1])
+        if comb != "liptak" and ctx.rng.random() < 0.25:    # all observed p-values at the top of the range (and a short table)
+            pv = [Fr(B + c - ctx.rng.choice([0, 0, 1, 2]), B + c) if B + c > 3 else Fr(1) for _ in range(n)]
         det = {"call": "npc", "pvalues": [str(t) for t in pv], "distr": D, "combine": comb, "plus1": plus1}
         r0 = call(pv, D, comb, plus1)
         ctx.case((tuple(pv), tuple(map(tuple, D)), comb, plus1), True, det); ctx.count("base-" + comb)
@@ -56,6 +75,10 @@ def run(ctx):
         i = ctx.rng.randrange(n)
         steps = [Fr(1, B + c), Fr(1, 2 * (B + c)), Fr(ctx.rng.randint(1, B), B + c)]
         up = min(Fr(1) - (Fr(1, 10**6) if comb == "liptak" else 0), pv[i] + ctx.rng.choice(steps))
+        if boundary:
+            tops = [j for j in range(n) if pv[j] in LADDER[:-1]]
+            if tops:
+                i = ctx.rng.choice(tops); up = ctx.rng.choice(LADDER[LADDER.index(pv[i]) + 1:])
         if up > pv[i]:
             pv2 = pv[:i] + [up] + pv[i + 1:]
             r1 = call(pv2, D, comb, plus1)
@@ -106,8 +129,13 @@ def run(ctx):
             det.update({"issue": "a strictly increasing transformation of a column changed the result", "column": jcol,
                         "before": float(r0[1]), "after": r3[1:] if r3[0] != "ok" else float(r3[1])})
             ctx.violation("oracle", det, site="npc")
-        if name != "liptak" and k0 is not None:
+        if name != "liptak":
             ge, amb = npc_exact(pv, D, name, plus1)
+            if amb == 0 and k0 != ge + c:
+                det.update({"issue": "the global p-value is not (c + #{rows whose combined statistic >= observed})/(c + B)", "returned": float(r0[1]),
+                            "expected": f"{ge + c}/{B + c}"})
+                ctx.violation("oracle", det, site="npc"); continue
+        if name != "liptak" and k0 is not None:
             if amb == 0:
                 ops.append(f"npc|{int(plus1)}|{name}|{rats(pv)}|{rows(D)}"); meta.append((det, Fr(k0, B + c)))
     # ---- combiner formulas and antitonicity
